@@ -121,7 +121,7 @@ def opNdl (j : Json) : M Json := do
     perJob := ← getNat j "per_job"
     perFile := ← getNat j "per_file" }
   let W0 ← getLW j
-  match ndlModel Generated.pyMagic Generated.pyVersion cfg alpha b1 b2 lam W0 es with
+  match ndlCall Generated.pyMagic Generated.pyVersion cfg alpha b1 b2 lam W0 es with
   | .error e => pure (jErr e)
   | .ok (w, n) => pure ((lwJson w).setObjVal! "n_events" (jNat n))
 
